@@ -4,7 +4,8 @@ namespace Sidetree.Drv
 open Sidetree Sidetree.Conc
 
 /-- kind `stress` (C20): what a run of the stress case must report. Components are functions of
-    their arguments (no disagreement between sequential and concurrent answers); the registries
+    their arguments (no disagreement between sequential and concurrent answers, also for models
+    the applier derived from one state; that state comes out as it went in); the registries
     are evaluated on one schedule (round robin) of the programs the harness runs — the theorems
     say every other schedule gives the same counts. -/
 def stressKind (c : Json) : Json :=
@@ -23,6 +24,7 @@ def stressKind (c : Json) : Json :=
   let nsOuts := (run [] (roundRobin 101 ((List.range g).map nsProg))).2
   let nsMissing := (nsOuts.filter fun o => o == Out.missing).length
   .obj [("class", .str "ok"), ("first", .null), ("mismatch", Json.mkNat 0),
+        ("derived_first", .null), ("derived_mismatch", Json.mkNat 0), ("derived_state_changed", Json.mkNat 0),
         ("namespace_lookup_failed_after_add", Json.mkNat nsMissing),
         ("registry_lookup_wrong", Json.mkNat lookupWrong),
         ("versions_not_registered_exactly_once", Json.mkNat notOnce)]
